@@ -18,6 +18,13 @@ symbol), with everything a static evaluator with constant folding can honestly r
   * an expression that raises for certain on the path evaluated (index beyond a literal tuple, key missing from a literal dict, a name
     nothing defines) is a `Crash` value: it ends the path, and the rules report it as a violation rather than as an analysis error.
 
+  * an index is the set of rows / columns it selects in an array of known shape (`Interp.shape_of`, supplied by the rule): unit-step
+    slices become intervals `sel(start, stop)` with the bounds resolved as numpy resolves them, missing axes are completed, a subscript
+    of a view is a subscript of the array viewed (section "selections" below); `np.s_[...]`, `slice(...)` objects are the same values;
+  * a library object is named by the dotted path its import resolves to, abbreviated as in `STD_NAMES` (np, la, mf, ...), whatever alias
+    the module (or a function-level import) gives it; `super().m(...)` is `Base.m(self, ...)`; `functools.partial`, `functools.reduce`,
+    the functions of `operator`, `divmod` are evaluated.
+
 Nothing of /repo is imported or executed; there is no numeric sampling: numbers are exact rationals read from the literals' decimal text.
 """
 from __future__ import annotations
@@ -401,7 +408,7 @@ def pow_const_base(base, expo):
 # abbreviations below, whatever alias the module binds it to:  `import numpy`, `import numpy as xp`, `from numpy import dot` all give
 # np / np.dot;  `mf = spla._matfuncs` (also under try/except) gives mf.
 STD_NAMES = (("scipy.sparse.linalg._matfuncs", "mf"), ("scipy.sparse.linalg.matfuncs", "mf"), ("scipy.sparse.linalg", "spla"),
-             ("scipy.sparse.isspmatrix", "isspmatrix"), ("scipy.sparse", "scipy.sparse"), ("scipy.linalg", "la"), ("scipy.signal", "signal"),
+             ("scipy.sparse.isspmatrix", "isspmatrix"), ("scipy.sparse.issparse", "isspmatrix"), ("scipy.sparse", "scipy.sparse"), ("scipy.linalg", "la"), ("scipy.signal", "signal"),
              ("numpy", "np"), ("pyyeti.expmint", "expmint"), ("functools", "functools"), ("operator", "operator"), ("math", "math"),
              ("itertools", "itertools"), ("warnings", "warnings"))
 
@@ -557,6 +564,8 @@ def index_is_canonical(ix):
             return False
         if _named(s, "None") or _named(s, "Ellipsis"):
             return False
+        if atoms_named(s, "call:") or atoms_named(s, "idx") or atoms_named(s, "tuple") or atoms_named(s, "attr:"):
+            return False                                # an index array, a mask, np.ix_(...): not a single position
     return True
 
 
@@ -817,6 +826,7 @@ class Interp:
     def expr(self, text, env=None):
         """value of a Python expression over `env` (the expected side of an obligation), evaluated by the same machinery"""
         fr = Frame(None, None, self.mod)
+        fr.vars.update({short: Ref(short) for _pre, short in STD_NAMES})      # the rules' own vocabulary, whatever the module calls its imports
         fr.vars.update(env or {})
         saved = (self.calls, self.loops, self.cells, self.inplace)
         self.calls, self.loops, self.cells, self.inplace = [], [], [], []
@@ -840,13 +850,13 @@ class Interp:
         if p is not None and p[0] == "idx" and len(p[1]) == 2 and isinstance(p[1][1], F.Rat):
             root = self.shape(p[1][0]) if isinstance(p[1][0], F.Rat) else None
             if root is not None and index_is_canonical(p[1][1]) and len(_index_items(p[1][1])[0]) == len(root):
-                return view_shape(p[1][1])
+                return tuple(clone(x) for x in view_shape(p[1][1]))
             return None
         if self.shape_of is None:
             return None
         sh = self.shape_of(v)
         if isinstance(sh, tuple) and all(isinstance(x, F.Rat) and not is_unknown(x) for x in sh):
-            return sh
+            return tuple(clone(x) for x in sh)
         return None
 
     def subscript(self, base, ix):
@@ -1706,7 +1716,7 @@ class Interp:
         if isinstance(base, F.Rat):
             if attr == "copy" and not pos:
                 return clone(base)
-            if attr in ("astype", "ravel", "squeeze", "flatten", "conj", "view", "reshape", "toarray", "todense"):
+            if attr in ("astype", "ravel", "squeeze", "flatten", "conj", "view", "reshape", "toarray", "todense", "transpose"):
                 return base
             v = self._opaque("." + attr, [base] + list(pos), kw)
             return v
@@ -2125,7 +2135,9 @@ class Interp:
             if is_crash(v):
                 raise _CrashSig(v)
         new = self.binop(st.op, cur, rhs, st)
-        counter = isinstance(st.op, (ast.Add, ast.Sub)) and is_const(rhs)
+        # integers are rebound, not updated: counters (`j += 1.0`) and the operators only integers have (`n >>= 1`, `n //= 2`)
+        counter = (isinstance(st.op, (ast.Add, ast.Sub)) and is_const(rhs)) \
+            or isinstance(st.op, (ast.RShift, ast.LShift, ast.FloorDiv, ast.Mod, ast.BitAnd, ast.BitOr, ast.BitXor))
         if isinstance(cur, F.Rat) and not counter:
             # numpy semantics: the array object is updated, every alias sees it
             self._note_inplace(cur, st)
